@@ -104,96 +104,13 @@ def _agg_fields(s):
 
 
 def r3(ctx):
+    """what an event carries: the two ingress functions of the replica and the callbacks of the reconciliation path evaluated
+    (rules/syncstep.py); replaces the provenance rule over the place where the Event aggregate is built, which reported a shared
+    `remote_insert_event(..)` helper"""
     f = ctx.facts
-    from .common import ip_trace, variant_edges, dominated_by_any
-    ie = f.body(IE)
-    ctx.touch(ie)
-    put = [t for _, t in ie.calls() if t["f"].get("name") == "put"][0]
-    stored = {origin_summary(o) for o in trace(ie, put["a"][1])}
-    # the event may be built in insert_entry itself or in a private helper it calls
-    scope = f.local_callees(IE, depth=2, prefix="sync::Replica")
-    ctx.touch(*scope)
-
-    def ipo(body, op, **kw):
-        """origins mapped back into insert_entry's frame: set of (summary, field path)"""
-        out = set()
-        for sb_, o in ip_trace(f, body, op, scope, **kw):
-            nm = origin_summary(o)
-            if o.kind == "arg":
-                nm = "upvar:%s" % o.data[1] if sb_ is not ie else nm   # parameters of the async fn are captured
-            out.add((nm, mir.field_path(o)))
-        return out
-    evs = []
-    for body in scope:
-        for bi, si, s in body.statements():
-            if s["k"] == "assign" and s["r"][0] == "agg" and s["r"][1][0] == "adt" and s["r"][1][1] == "sync::Event":
-                evs.append((body, bi, s))
-    kinds = {s["r"][1][2] for _, _, s in evs}
-    ctx.check(kinds == {"LocalInsert", "RemoteInsert"} and len(evs) == 2, "C12.R3", IE, "builds-local-and-remote-events", "%s" % sorted(kinds), ie.sp)
-    IOr = [v["name"] for v in f.adt("sync::InsertOrigin")["variants"]]
-    for body, bi, s in evs:
-        kind = s["r"][1][2]
-        flds = _agg_fields(s)
-        arm = "Local" if kind == "LocalInsert" else "Sync"
-        es = variant_edges(body, lambda ty: ty.endswith("sync::InsertOrigin"), IOr.index(arm))
-        ctx.check(dominated_by_any(body, es, bi), "C12.R3", IE, "%s-only-under-origin-%s" % (kind, arm), "event kind matches the origin arm (in %s)" % body.path, s["sp"])
-        ent = {x[0] for x in ipo(body, flds["entry"])}
-        ctx.check(ent == stored, "C12.R3", IE, "%s.entry-is-the-stored-entry" % kind, "event entry %s / stored %s" % (sorted(ent), sorted(stored)), s["sp"])
-        if kind == "RemoteInsert":
-            for fld in ("from", "remote_content_status"):
-                o = ipo(body, flds[fld])
-                ok = bool(o) and all(nm in ("upvar:origin", "arg:origin") and fld in fp for nm, fp in o)
-                ctx.check(ok, "C12.R3", IE, "RemoteInsert.%s-from-origin" % fld, "%s" % sorted(o), s["sp"])
-            sd = trace(body, flds["should_download"], through_calls=False)
-            ok = False
-            for x in sd:
-                if x.kind == "call" and callee_matches(x.data, r"store::DownloadPolicy::matches$"):
-                    ent2 = {y[0] for y in ipo(body, x.data["a"][1], view=VIEW_ENTRY)}
-                    from_store = any(o.kind == "call" and o.data["f"].get("name") == "get_download_policy" for o in leaves(body, x.data["a"][0], expand_calls=False)) or \
-                        any(o.kind == "call" and o.data["f"].get("name") in ("unwrap_or_default",) for o in trace(body, x.data["a"][0], through_calls=False))
-                    ok = from_store and ent2 == stored
-            ctx.check(ok, "C12.R3", IE, "RemoteInsert.should_download=policy.matches(entry)", "should_download derives from DownloadPolicy::matches(stored policy, this entry)", s["sp"])
-    gp = [(body, t) for body in scope for _, t in body.calls() if t["f"].get("name") == "get_download_policy"]
-    if len(gp) == 1:
-        body, t = gp[0]
-        ns = leaves(body, t["a"][1], expand_calls=False)
-        ok = bool(ns) and all((o.kind == "call" and o.data["f"].get("name") == "id") or o.kind in ("upvar", "arg") for o in ns)
-        ctx.check(ok, "C12.R3", IE, "policy-of-this-namespace", "get_download_policy(&self.id()): %s" % [origin_summary(o) for o in ns], t["sp"])
-    sb, sbi, st, cl = production_closures(f)
-    fam = f.family(cl[1])
-    evs = []
-    for b in fam:
-        ctx.touch(b)
-        for bi, si, s in b.statements():
-            if s["k"] == "assign" and s["r"][0] == "agg" and s["r"][1][0] == "adt" and s["r"][1][1] == "sync::Event":
-                evs.append((b, s))
-    if len(evs) != 1 or evs[0][1]["r"][1][2] != "RemoteInsert":
-        ctx.bad("C12.R3", cl[1], "builds-one-RemoteInsert", "found %s" % [s["r"][1][2] for _, s in evs], None)
-    else:
-        b, s = evs[0]
-        flds = _agg_fields(s)
-
-        def ups(op):
-            out = set()
-            for o in trace(b, op, view=VIEW_ENTRY):
-                out.add(("upvar:%s" % o.data) if o.kind == "upvar" else origin_summary(o))
-            return out
-        ctx.check(ups(flds["from"]) == {"upvar:from_peer"}, "C12.R3", b.path, "sync.from=from_peer", "%s" % sorted(ups(flds["from"])), s["sp"])
-        ctx.check(ups(flds["namespace"]) == {"upvar:my_namespace"}, "C12.R3", b.path, "sync.namespace=my_namespace", "%s" % sorted(ups(flds["namespace"])), s["sp"])
-        ctx.check(ups(flds["entry"]) == {"upvar:entry"}, "C12.R3", b.path, "sync.entry=callback-entry", "%s" % sorted(ups(flds["entry"])), s["sp"])
-        ctx.check(ups(flds["remote_content_status"]) == {"upvar:content_status"}, "C12.R3", b.path, "sync.status=callback-status", "%s" % sorted(ups(flds["remote_content_status"])), s["sp"])
-        sd = trace(b, flds["should_download"], through_calls=False)
-        ok = False
-        for x in sd:
-            if x.kind == "call" and callee_matches(x.data, r"store::DownloadPolicy::matches$"):
-                ok = ups(x.data["a"][0]) == {"upvar:download_policy"} and ups(x.data["a"][1]) == {"upvar:entry"}
-        ctx.check(ok, "C12.R3", b.path, "sync.should_download=policy.matches(entry)", "should_download = download_policy.matches(entry.entry())", s["sp"])
-        gp = [t for _, t in sb.calls() if t["f"].get("name") == "get_download_policy"]
-        okp = False
-        if len(gp) == 1:
-            a = leaves(sb, gp[0]["a"][1], expand_calls=False)
-            okp = bool(a) and all(o.kind == "call" and o.data["f"].get("name") == "id" for o in a)
-        ctx.check(okp, "C12.R3", sb.path, "sync.policy-of-this-namespace", "download_policy = store.get_download_policy(&my_namespace)", sb.sp)
+    from . import syncstep
+    syncstep.check_insert_paths(ctx, "C12.R3")
+    syncstep.check_callbacks(ctx, "C12.R3")
     pm = f.body(PM)
     oic = [t for _, t in pm.calls() if t["f"].get("full", "").startswith("<F2 as ")][0]
     putc = [t for _, t in pm.calls() if t["f"].get("name") == "put"][0]
@@ -203,7 +120,7 @@ def r3(ctx):
             a_ent |= {origin_summary(x) for x in trace(pm, o.data[1][1])}
     p_ent = {origin_summary(o) for o in trace(pm, putc["a"][1])}
     ctx.check(bool(a_ent) and a_ent == p_ent, "C12.R3", PM, "announced-entry-is-stored-entry", "on_insert entry %s / put entry %s" % (sorted(a_ent), sorted(p_ent)), oic["sp"])
-    ctx.floor("C12.R3", 14)
+    ctx.floor("C12.R3", 18)
 
 
 def r4(ctx):
